@@ -2,10 +2,11 @@ import ScriggoV.Model.Runs
 import ScriggoV.Gen.SharedWrites
 /-! line protocol of C10:
   `toy <prog> <inputs> <sched>` runs the toy machine of Model/Runs.lean under the given schedule;
-     prog   = instructions separated by `,`: `c:r:v` const, `v:r` addv, `a:r:q` add, `n:f:r` native, `s:r` show
+     prog   = instructions separated by `,`: `c:r:v` const, `v:r` addv, `a:r:q` add, `n:f:r` native, `s:r` show,
+              `g:f:r` go native (the callee reads its argument at a later `j`), `j` join one started native
      inputs = one integer per run, separated by `,`
      sched  = run indices separated by `,` (`-` = empty)
-     answer = `ok <obs of run 0>;<obs of run 1>;…` (each a `,`-separated list, `-` when empty)
+     answer = `ok <shown of run 0>|<recorded by run 0's native goroutines>;…` (`,`-separated lists, `-` when empty)
   `facts` answers the sizes of the regenerated frame-fact tables. -/
 namespace ScriggoV.Drv.C10
 open ScriggoV.Runs
@@ -17,6 +18,8 @@ def parseInstr (s : String) : Option Instr :=
   | ["a", r, q] => do pure (.add (← r.toNat?) (← q.toNat?))
   | ["n", f, r] => do pure (.native (← f.toNat?) (← r.toNat?))
   | ["s", r] => do pure (.show (← r.toNat?))
+  | ["g", f, r] => do pure (.goNative (← f.toNat?) (← r.toNat?))
+  | ["j"] => some .join
   | _ => none
 
 def parseList {α : Type} (f : String → Option α) (s : String) : Option (List α) :=
@@ -31,7 +34,9 @@ def handle : List String → Option String
     let ins ← parseList String.toInt? inputs
     let sc ← parseList String.toNat? sched
     let s := runSched sc (toySys body 4 ins)
-    pure ("ok " ++ ";".intercalate ((List.range ins.length).map (fun i => showInts (obsOf i s))))
+    let shown (i : Nat) : List Int := (obsOf i s).filterMap (fun o => match o with | .shown v => some v | _ => none)
+    let recd (i : Nat) : List Int := (obsOf i s).filterMap (fun o => match o with | .recorded _ v => some v | _ => none)
+    pure ("ok " ++ ";".intercalate ((List.range ins.length).map (fun i => showInts (shown i) ++ "|" ++ showInts (recd i))))
   | ["facts"] =>
     let g := ScriggoV.Gen.SharedWrites.writeSites.length
     pure s!"ok writes={g} pkgvarwrites={ScriggoV.Gen.SharedWrites.pkgVarWrites.length} refvars={ScriggoV.Gen.SharedWrites.pkgRefVars.length} allocs={ScriggoV.Gen.SharedWrites.callableAllocs.length} stores={ScriggoV.Gen.SharedWrites.generalStores.length} poolfill={ScriggoV.Gen.SharedWrites.argsPoolFilledOnEveryPath}"
